@@ -8,12 +8,12 @@ import string
 
 RULE = ("(LOCUS: each of the twelve molecule types or none, topology / division / date / stated length present or absent, trailing "
         "blanks; REFERENCE with an empty range written with or without the two blanks; keys over all visible characters; "
-        "quotation marks inside qualifier values) (locations: spans, single bases, complement, join, and the INSDC forms order/bond/gap/one-of, n.m, n^m, remote "
+        "quotation marks inside qualifier values: generated, compared with the model, NOT judged — outside the quantifier) (locations: spans, single bases, complement, join, and the INSDC forms order/bond/gap/one-of, n.m, n^m, remote "
         "acc.v:a..b as text; qualifiers quoted, unquoted, value-less, keys with capitals and digits, repeated keys; empty standard "
         "blocks written or left out; extra keyword blocks in any of the 7 slots between LOCUS and FEATURES) "
         "abstract records laid out by the independent writer of Spec/GbLayout.lean: sequence 1..2000 letters (quick; a few to 2*10^4) "
         "/ 1..10^5 (thorough), every molecule type x topology x division, LOCUS gaps 1..12 blanks, lengths of 1-6 digits, "
-        "0..40 features with 0..8 qualifiers (values over printable ASCII, a double quote only inside, with '/', '=', '//', leading/trailing "
+        "0..40 features with 0..8 qualifiers (values over printable ASCII other than the double quote, with '/', '=', '//', leading/trailing "
         "blanks, long values wrapped at widths 20..79 or at random blanks, /translation cut mid-token), features without qualifiers, "
         "locations on 1..6 lines, 0..5 references (numbered by position or stating their own number: gaps, repeats, 0, descending, non-numeric tokens; REFERENCE line wrapped at its blanks) with optional AUTHORS/TITLE/JOURNAL/PUBMED/REMARK, 0..3 extra keyword blocks, "
         "1..5 records, with/without final newline, with/without the 10-line header, through Parse/ParseMulti/ParseFlat and the Read* "
@@ -23,6 +23,10 @@ TRUSTED_BASE = ["Spec/GbLayout.lean: the independent writer (NCBI flat-file colu
                 "scanners standing for the four regular expressions of parseLocus/getSequence (checked by correspondence only)",
                 "ASCII restriction: Go rune/byte behaviour on non-ASCII input is outside the model"]
 ASSUMPTIONS = ["inputs are ASCII",
+               "qualifier values hold no double quote, as the quantifier says (Spec quoteFreeValues, part of the judge's domain). The theorems "
+               "(wfQual) also cover quotation marks INSIDE a value, returned verbatim, because C03's round trip needs them; such records are "
+               "generated and compared with the model but not judged: whether a doubled quote inside a quoted value states one quote (the "
+               "INSDC escape) or two is not decided by this property (genbank.Parse returns it verbatim and genbank.Build does not double)",
                "location text is one INSDC-shaped expression (atom or operator(loc,...), complement with exactly one operand — a restriction of "
                "the check's grammar, Go reads more): texts with unbalanced or stray parentheses are outside the domain (Spec isLocText); "
                "on those (e.g. a truncated `join(1..2,`) genbank.Parse PANICS in parseLocation (slice bounds) — the driver mirrors it with "
@@ -183,7 +187,7 @@ def loc_breaks(r, loc):
     return out
 
 
-def qual_value(r, trap):
+def qual_value(r, trap, quotes=False):
     k = r.random()
     if k < 0.1:
         return ""
@@ -191,8 +195,9 @@ def qual_value(r, trap):
         return r.choice(["1", "11", "other DNA", "taxon:562", "x=y=z", "a/b", "a=b/c d=e/f", " lead", "trail ", "=", "/"])
     if k < 0.145:
         return r.choice(["1", "11", "other DNA", "a/b", "x=y=z", "taxon:562", " lead", "trail ", "a // b", "/start", "=", "/", "see /note here", "a=b/c d=e/f"])
-    if k < 0.2:
-        # quotation marks inside (not at either end), also next to '/' and at chunk ends
+    if k < 0.2 and quotes:
+        # quotation marks inside (not at either end), also next to '/' and at chunk ends: outside the property's quantifier ("values
+        # over printable ASCII other than the double quote"), inside the theorems (C03 needs them); not judged, drift probes
         return r.choice(['say "hi" there', 'a "b" /c d', 'x" /y', 'the "quoted" word and "another" /one more', 'k="v"/w', 'a""b', '5\' "x"/ y'])
     if k < 0.45:
         return randword(r, PRINT_NOQ, r.randint(1, 30))
@@ -281,6 +286,7 @@ def record(r, tier, big=False, trap=0.001, small=False, repeat=False):
         t = "" if r.random() < 0.05 else text(r, r.randint(1, 80), trap)
         f += [k, t, nats(breaks(r, t, 12))]
     nfeat = r.choice([0, 1, 2, 3, 5, 8, 12, 20, 40]) if not small else r.randint(0, 4)
+    quoty = r.random() < 0.06                                     # a record whose qualifier values may hold quotation marks inside
     f.append(str(nfeat))
     for _ in range(nfeat):
         key = r.choice(FKEYS)
@@ -300,7 +306,7 @@ def record(r, tier, big=False, trap=0.001, small=False, repeat=False):
                 v = randword(r, AMINO, loglen(r, 1, 700))
                 f += [qk, v, nats(cuts_(r, v, 58 - 14)), str(st)]
             else:
-                v = qual_value(r, trap)
+                v = qual_value(r, trap, quoty)
                 if st == 1 and r.random() < 0.7:
                     v = r.choice(["1", "11", "7", "taxon:562", "a=b", "/x", "x/y", "=", "join(1..2)", "ABC"])
                 if st == 2 and r.random() < 0.8:
